@@ -23,6 +23,8 @@ RULE = (
     'StreamClosed only when nothing is buffered, nobody left waiting at quiescence while items are buffered or the queue is closed, put after close rejected and stores nothing. '
     'non-trivial = a signal landed inside a participant, or the reference run; distinct = trace'
 )
+RULE = RULE + (' Further: payloads equal to everything / None / exception instances, bursts up to 70000, consumers that are SimPy-style processes, clocks that absorb every delay or start below zero.')
+
 LEVEL_TEXT = (
     'Fault enumeration by runtime monitoring: history checker (exactly-once, FIFO, no-loss) over '
     'the recorded put/get/close events of the real Queue, with signals injected at every '
